@@ -251,6 +251,8 @@ Definition scale_method_eqb (a b : scale_method) : bool :=
 Definition qdec (m : Z) (e : Z) : Qc := Q2Qc (m # Z.to_pos (10 ^ e)).
 (** np.finfo(np.float32).eps = 2^-23 *)
 Definition float32_eps : Qc := Q2Qc (1 # 8388608).
+(** np.finfo(np.float32).tiny = 2^-126, the smallest normal float32 *)
+Definition float32_tiny : Qc := Q2Qc (1 # 85070591730234615865843651857942052864).
 (** v[:-1], v[1:] *)
 Definition vinit (l : vec) : vec := removelast l.
 Definition vtail (l : vec) : vec := tl l.
